@@ -53,6 +53,13 @@ let handle = function
         out_with serr (function SrvNone -> "None" | SrvOk (_, m) -> "Ok " ^ hex_of_bytes m
                               | SrvBadTime (_, _) -> "Err BADTIME signed")
           (c11_server_request k (bytes_of_hex wire) (num now)))
+  | ["serr"; a; s; nm; mn; sg; wire; now] ->
+      with_key a s nm mn sg (fun k ->
+        match c11_server_request k (bytes_of_hex wire) (num now) with
+        | Err e when int_of_n e >= 100 ->
+            (match c11_unsigned_error_rcode (bytes_of_hex wire) (n_of_int (int_of_n e - 100)) with
+             | Ok rc -> "rcode " ^ string_of_int (int_of_n rc) | Panic _ -> "Panic" | _ -> "?")
+        | _ -> "NotUnsignedError")
   | ["sans"; a; s; nm; mn; sg; wire; nowreq; ans; now; fudge] ->
       with_key a s nm mn sg (fun k ->
         match srv_txn k wire nowreq with
